@@ -49,6 +49,21 @@ pub static MSR_VAL: [AtomicU64; NMSR] = [Z; NMSR];
 pub static NMSRS: AtomicUsize = AtomicUsize::new(0);
 pub static XCR0: AtomicU64 = AtomicU64::new(0);
 pub static IF: AtomicU64 = AtomicU64::new(1);
+/// window probe (C17): when non-zero, the address of a plain memory cell that the emulated
+/// "interrupt handler" samples and overwrites at every cli / sti
+pub static PROBE: AtomicU64 = AtomicU64::new(0);
+pub static PROBE_SEEN: [AtomicU64; 2] = [Z; 2];
+pub const PROBE_CLI: u64 = 0xc11;
+pub const PROBE_STI: u64 = 0x571;
+fn probe(k: usize, mark: u64) {
+    let p = PROBE.load(Ordering::Relaxed) as *mut u64;
+    if !p.is_null() {
+        unsafe {
+            PROBE_SEEN[k].store(std::ptr::read_volatile(p), Ordering::Relaxed);
+            std::ptr::write_volatile(p, mark);
+        }
+    }
+}
 pub static SREG: [AtomicU64; 6] = [Z; 6];
 pub static TR: AtomicU64 = AtomicU64::new(0);
 pub static GDTR: [AtomicU64; 2] = [Z; 2];
@@ -290,11 +305,13 @@ pub unsafe fn emulate(_sig: i32, _code: i32, _addr: u64, uc: *mut libc::ucontext
     match op {
         0xfa => {
             IF.store(0, Ordering::Relaxed);
+            probe(0, PROBE_CLI);
             push(M_CLI, 0, 0, 0, 0, rip);
             len = i + 1;
         }
         0xfb => {
             IF.store(1, Ordering::Relaxed);
+            probe(1, PROBE_STI);
             push(M_STI, 0, 0, 0, 0, rip);
             len = i + 1;
         }
